@@ -39,6 +39,7 @@ AXIOMS = {
     "int-str-roundtrip": "for every int i: int(str(i), 10) parses and equals i",
     "int-hex-roundtrip": "for every int i: int(hex(i), 16) parses and equals i",
     "float-str-roundtrip": "for every finite float x: float(str(x)) parses, is finite and equals x",
+    "parse-nonempty": "int(s, base) and float(s) raise ValueError for the empty string",
     "int-is-float": "every base-10 integer literal accepted by int(s,10) whose magnitude is < 2**53 is accepted by"
                     " float(s) with the same numeric value (used only where stated)",
 }
@@ -138,6 +139,7 @@ def b_int(ex, ctx, st, args, kwargs, node):
         if v.k == "flt":
             raise Unsupported("int(float)")
         if v.k == "str":
+            ctx.assume(z3.Implies(is_base_n(v.t, 10), z3.Length(v.t) > 0), "axiom:parse-nonempty")
             if not ctx.branch(is_base_n(v.t, 10)):
                 ex.raise_(st, "ValueError", node)
             return mk_int(int_of(v.t, 10))
@@ -156,6 +158,7 @@ def b_int(ex, ctx, st, args, kwargs, node):
             return mk_int(int(vv, bv))
         except ValueError:
             ex.raise_(st, "ValueError", node)
+    ctx.assume(z3.Implies(is_base_n(v.t, b.t), z3.Length(v.t) > 0), "axiom:parse-nonempty")
     if not ctx.branch(is_base_n(v.t, b.t)):
         ex.raise_(st, "ValueError", node)
     return mk_int(int_of(v.t, b.t))
@@ -184,6 +187,7 @@ def b_float(ex, ctx, st, args, kwargs, node):
                 fr = Fraction(x)
                 return mk_flt(z3.RealVal(f"{fr.numerator}/{fr.denominator}"))
             return mk_py(x)  # inf / nan as concrete python floats
+        ctx.assume(z3.Implies(is_float_str(v.t), z3.Length(v.t) > 0), "axiom:parse-nonempty")
         if not ctx.branch(is_float_str(v.t)):
             ex.raise_(st, "ValueError", node)
         if not ctx.branch(is_finite_str(v.t)):
